@@ -180,6 +180,23 @@ def _random_run(args):
         w.close()
 
 
+def _directed_run(args):
+    seed, rid, template = args
+    from harness import extble_driver as D
+    w = D.directed_run(seed, rid, template)
+    try:
+        rec = w.record()
+        rec["loop_exceptions"] = w.loop_exceptions[:5]
+        return rec
+    finally:
+        w.close()
+
+
+def _dir_job(seed, i):
+    from harness import extble_driver as D
+    return (seed * 7919 + i, f"dir{i}", D.TEMPLATES[i % len(D.TEMPLATES)])
+
+
 def _rnd_job(seed, i):
     return (seed * 1000003 + i, f"rnd{i}", [15, 30, 60, 100][i % 4], [0.1, 0.25, 0.4][i % 3], 2 + i % 3)
 
@@ -296,9 +313,13 @@ def run(ctx):
         jobs_b = [(b, ctx.seed * 7 + i, f"beh{i}") for i, b in enumerate(beh)]
         nr = ctx.pick(400, 4500)
         jobs_r = [_rnd_job(ctx.seed, i) for i in range(nr)]
+        nd = ctx.pick(90, 900)
+        jobs_d = [_dir_job(ctx.seed, i) for i in range(nd)]
         with mp.get_context("fork").Pool(min(16, os.cpu_count() or 4)) as pool:
             recs = pool.map(_replay_behaviour, jobs_b, chunksize=8)
             recs += pool.map(_random_run, jobs_r, chunksize=8)
+            recs += pool.map(_directed_run, jobs_d, chunksize=8)
+        ctx.notes["directed_runs"] = nd
         ctx.notes["behaviours_replayed"] = len(jobs_b)
         ctx.notes["behaviour_stimuli_applied"] = sum(r.get("applied", 0) for r in recs)
         ctx.notes["random_runs"] = nr
@@ -334,8 +355,11 @@ def _replay(ctx):
     rid = str(rec.get("id", ""))
     fresh = None
     m = re.match(r"rnd(\d+)$", rid)
+    md = re.match(r"dir(\d+)$", rid)
     if m:
         fresh = _random_run(_rnd_job(seed, int(m.group(1))))
+    elif md:
+        fresh = _directed_run(_dir_job(seed, int(md.group(1))))
     elif rid.startswith("beh") and rec.get("actions"):
         acts = []
         for a in rec["actions"]:
